@@ -44,38 +44,103 @@ JOBS = 12
 def _run_block(hx, lines):
     rc, out, err = run_cmd([hx], input=("\n".join(lines) + "\n").encode(), timeout=900, env=ENV)
     outl = out.decode(errors="replace").splitlines()
-    return rc, outl, err.decode(errors="replace")[-3000:]
+    e = err.decode(errors="replace")
+    return rc, outl, e if len(e) < 6000 else e[:4000] + "\n...\n" + e[-1500:]
+
+
+def _run_block_resilient(hx, blk):
+    """run a block; a line that kills the harness gets output "CRASH" and is recorded; the rest of the block is still run"""
+    outs, crashes = [], []
+    rest = blk
+    while rest:
+        rc, outl, err = _run_block(hx, rest)
+        if rc == 0 and len(outl) == len(rest):
+            outs += outl
+            break
+        # the harness flushes after every line: the first missing output is the culprit
+        idx = min(len(outl), len(rest) - 1)
+        outs += outl[:idx] + ["CRASH"]
+        rc2, o2, e2 = _run_block(hx, [rest[idx]])
+        if rc2 == 0 and len(o2) == 1:
+            crashes.append({"lines": rest[max(0, idx - 50):idx + 1], "rc": rc, "stderr": err, "needs_history": True})
+        else:
+            crashes.append({"lines": [rest[idx]], "rc": rc2, "stderr": e2})
+        rest = rest[idx + 1:]
+        if len(crashes) >= 2:
+            outs += ["CRASH"] * len(rest)
+            break
+    return outs, crashes
 
 
 def run_harness(hx, lines):
-    """returns (outputs or None, crash) ; crash = dict(line=, rc=, stderr=) for the first input line that kills it"""
+    """returns (outputs, crashes); outputs[i] == "CRASH" for a line that killed the harness (crash / sanitizer abort / timeout)"""
     if not lines:
-        return [], None
+        return [], []
     nblk = min(JOBS, max(1, len(lines) // 200))
     size = (len(lines) + nblk - 1) // nblk
     blocks = [lines[i:i + size] for i in range(0, len(lines), size)]
     with cf.ThreadPoolExecutor(JOBS) as ex:
-        res = list(ex.map(lambda b: _run_block(hx, b), blocks))
-    outs = []
-    for blk, (rc, outl, err) in zip(blocks, res):
-        if rc != 0 or len(outl) != len(blk):
-            # bisect inside the block: the harness flushes after every line, so the first missing output is the culprit
-            idx = min(len(outl), len(blk) - 1)
-            culprit = blk[idx]
-            rc2, o2, e2 = _run_block(hx, [culprit])
-            if rc2 == 0 and len(o2) == 1:
-                # needs the history: shrink the prefix
-                lo = 0
-                while lo < idx:
-                    rc3, o3, e3 = _run_block(hx, blk[lo + 1:idx + 1])
-                    if rc3 != 0 or len(o3) != idx - lo:
-                        lo += 1
-                    else:
-                        break
-                return None, {"lines": blk[lo:idx + 1], "rc": rc, "stderr": err}
-            return None, {"lines": [culprit], "rc": rc2, "stderr": e2}
-        outs += outl
-    return outs, None
+        res = list(ex.map(lambda b: _run_block_resilient(hx, b), blocks))
+    outs, crashes = [], []
+    for o, c in res:
+        outs += o
+        crashes += c
+    return outs, crashes
+
+
+def crash_signature(stderr):
+    """stable signature of a sanitizer report: error kind + innermost frame inside parse.c / pp.c"""
+    import re
+    kind = "crash"
+    m = re.search(r"ERROR: AddressSanitizer: ([\w-]+)", stderr)
+    if m:
+        kind = m.group(1)
+    else:
+        m = re.search(r"runtime error: ([^\n]{0,60})", stderr)
+        if m:
+            kind = "ubsan:" + re.sub(r"0x[0-9a-f]+|\d+", "N", m.group(1)).strip().replace(" ", "-")
+    fn = ""
+    for m in re.finditer(r"#\d+ 0x[0-9a-f]+ in (\w+) [^\n]*/src/core/(parse|pp|strtod)\.c", stderr):
+        fn = m.group(1)
+        break
+    return "%s@%s" % (kind, fn or "?")
+
+
+def minimise_crash(hx, line):
+    """greedy removal of schedule ops, then of text bytes from the end, keeping the crash"""
+    parts = line.split(" ")
+    if len(parts) != 3 or parts[0] != "case":
+        return line
+
+    def crashes(l):
+        rc, o, e = _run_block(hx, [l])
+        return rc != 0 or len(o) != 1
+    ops = parts[2].split(",")
+    i = 0
+    while i < len(ops) and len(ops) > 1:
+        cand = ops[:i] + ops[i + 1:]
+        if crashes("case %s %s" % (parts[1], ",".join(cand))):
+            ops = cand
+        else:
+            i += 1
+    return "case %s %s" % (parts[1], ",".join(ops))
+
+
+def report_crashes(ctx, hx, crashes, what):
+    seen = set()
+    for c in crashes:
+        sig = "crash:" + crash_signature(c["stderr"])
+        if sig in seen:
+            continue
+        seen.add(sig)
+        lines = c["lines"]
+        if len(lines) == 1:
+            lines = [minimise_crash(hx, lines[0])]
+            rc, o, e = _run_block(hx, lines)
+            if rc != 0:
+                c = dict(c, stderr=e)
+        ctx.violation(sig, {"kind": "crash", "lines": lines, "rc": c["rc"], "stderr": c["stderr"][:3500]},
+                      what="implementation crashed / sanitizer report (%s) %s: %s" % (sig, what, lines[-1][:200]))
 
 
 def split_out(line):
@@ -129,13 +194,21 @@ def load_corpus():
     return out
 
 
-def case_lines(ctx, texts, nsched):
+def case_lines(ctx, texts, nsched, solo=True):
+    """owner[i] = index of the text whose schedules are compared with each other; negative = solo run (API-sequence fuzz with raw
+    flush / undrained error taking: result legitimately depends on the schedule)"""
     rng = ctx.rng.fork("sched")
     lines, owner = [], []
+    nsolo = 0
     for ti, t in enumerate(texts):
         for s in G.schedules(rng, len(t["bytes"]), t["flushes"], nsched):
             lines.append("case %s %s" % (t["bytes"].hex() or "-", s))
             owner.append(ti)
+        if solo and "expect" not in t:
+            for _ in range(2):
+                nsolo += 1
+                lines.append("case %s %s" % (t["bytes"].hex() or "-", G.schedule_solo(rng, len(t["bytes"]))))
+                owner.append(-nsolo)
     return lines, owner
 
 
@@ -161,12 +234,12 @@ def direct_oracle(texts, lines, owner, outs):
                 if ":es3=" in t and t.endswith("=error"):
                     fails.append({"why": "error-not-cleared-by-parser/error", "case": lines[i], "out": outs[i], "token": t})
             d, conf = keyed(tr)
-            if conf:
+            if conf and ti >= 0:
                 fails.append({"why": "same-run-position-conflict", "case": lines[i], "out": outs[i], "conflict": conf[0]})
             if ref is None:
                 ref = (i, ev, num)
                 merged = d
-                exp = texts[ti].get("expect")
+                exp = texts[ti].get("expect") if ti >= 0 else None
                 if exp is not None and exp != ev:
                     fails.append({"why": "corpus-expectation", "case": lines[i], "out": outs[i], "expected": exp})
                 continue
@@ -254,11 +327,12 @@ def run(ctx, replay_lines=None):
     nsched = 8 if quick else 12
     lines, owner = case_lines(ctx, texts, nsched)
     ctx.say("%d texts, %d (text, schedule) runs" % (len(texts), len(lines)))
-    outs, crash = run_harness(hx, lines)
-    if crash:
-        ctx.violation("parser-crash", {"kind": "crash", "lines": crash["lines"], "rc": crash["rc"], "stderr": crash["stderr"]},
-                      what="implementation crashed / sanitizer report while parsing: %s" % crash["lines"][-1][:200])
-        return ctx.finish("proof", {"evaluations": len(lines), "distinct_nontrivial": 0, "rule": "crashed", "samples": crash["lines"][:3]})
+    outs, crashes = run_harness(hx, lines)
+    report_crashes(ctx, hx, crashes, "while parsing")
+    ncrash = sum(1 for o in outs if o == "CRASH")
+    if ncrash:
+        keep = [i for i, o in enumerate(outs) if o != "CRASH"]
+        lines, owner, outs = [lines[i] for i in keep], [owner[i] for i in keep], [outs[i] for i in keep]
 
     # (E) direct oracle on the implementation
     fails = direct_oracle(texts, lines, owner, outs)
@@ -320,16 +394,15 @@ def run(ctx, replay_lines=None):
         tricky = rrng.chance(1, 4)
         terms.append((G.value_term(rrng, rrng.range(0, 4), tricky), tricky))
     rt_lines = ["rt " + " ".join(t) for t, _ in terms]
-    rt_outs, crash = run_harness(hx, rt_lines)
+    rt_outs, crashes = run_harness(hx, rt_lines)
     rt_stats = collections.Counter()
-    if crash:
-        ctx.violation("jdn-crash", {"kind": "crash", "lines": crash["lines"], "rc": crash["rc"], "stderr": crash["stderr"]},
-                      what="implementation crashed / sanitizer report in %%j print / parse round trip: %s" % crash["lines"][-1][:200])
-        rt_outs = []
+    report_crashes(ctx, hx, crashes, "in %j print / parse round trip")
     rt_reported = set()
     for (t, tricky), l, o in zip(terms, rt_lines, rt_outs):
         w = o.split(" ", 1)[0]
         rt_stats[w + ("-tricky" if tricky else "")] += 1
+        if w == "CRASH":
+            continue
         if w == "MISMATCH" or (w == "refused" and not tricky) or w not in ("ok", "refused", "MISMATCH"):
             # minimise: smallest subterm that fails on its own
             best = (t, o)
@@ -354,7 +427,7 @@ def run(ctx, replay_lines=None):
     pdiffs = []
     if exe and rt_outs:
         jl = ["jdn " + " ".join(t) for t, _ in terms]
-        jo_impl, crash = run_harness(hx, jl)
+        jo_impl, _ = run_harness(hx, jl)
         jo_model = ctx.model(jl, exe=exe)
         for l, a, b in zip(jl, jo_impl or [], jo_model):
             if a.split(" ")[0] != b.split(" ")[0] and not (b == "skip"):
@@ -369,10 +442,11 @@ def run(ctx, replay_lines=None):
             more = gen_texts(ctx, 6000)
             l2, o2 = case_lines(ctx, more, 10)
             outs2, crash2 = run_harness(hx, l2)
-            f2 = direct_oracle(more, l2, o2, outs2) if outs2 else []
-            if crash2:
-                ctx.violation("parser-crash", {"kind": "crash", "lines": crash2["lines"], "stderr": crash2["stderr"]}, what="crash in extended search")
-            elif f2:
+            report_crashes(ctx, hx, crash2, "in extended search")
+            keep = [i for i, o in enumerate(outs2) if o != "CRASH"]
+            l2, o2, outs2 = [l2[i] for i in keep], [o2[i] for i in keep], [outs2[i] for i in keep]
+            f2 = direct_oracle(more, l2, o2, outs2)
+            if f2:
                 f = f2[0]
                 ctx.violation("parse:" + f["why"], {"kind": "parser-oracle", "detail": f, "lines": [f.get("ref_case"), f["case"]] if f.get("ref_case") else [f["case"]]},
                               what="%s (extended search): %s" % (f["why"], f["case"][:160]))
@@ -413,9 +487,9 @@ def replay(ctx, path):
     except BuildError as e:
         print("harness does not build:", str(e)[-500:])
         return 1
-    outs, crash = run_harness(hx, lines)
-    if crash:
-        print("REPRODUCED: crash\n" + crash["stderr"][-1500:])
+    outs, crashes = run_harness(hx, lines)
+    if crashes:
+        print("REPRODUCED: crash\n" + crashes[0]["stderr"][-1500:])
         return 1
     for l, o in zip(lines, outs):
         print(l[:300])
